@@ -552,9 +552,26 @@ func (lw *lazyWriter) Write(p []byte) (n int, err error) {
 				close(acquired)
 				<-lw.done
 			})
+
+			// withWriterFunc can return without ever calling back (no writer
+			// could be acquired, e.g. the websocket connection is closing);
+			// release the waiting Write with a writer that fails
+			select {
+			case <-acquired:
+			default:
+				lw.w = failedWriter{}
+				close(acquired)
+			}
 		}()
 		<-acquired
 	}
 
 	return lw.w.Write(p)
+}
+
+// failedWriter is what lazyWriter writes to when no writer could be acquired
+type failedWriter struct{}
+
+func (failedWriter) Write(p []byte) (int, error) {
+	return 0, xerrors.New("could not acquire a writer for the response")
 }
